@@ -1636,8 +1636,11 @@ class Generated:
         self.fired = []
 
 
-def assemble(repo, unit_path, extra_header=""):
+def assemble(repo, unit_path, extra_header="", extra_items=None):
     unit = parse_unit(unit_path)
+    # AUTO-CONST: constants of the source files that changed code refers to but the unit did not list (see run.py)
+    for path_ in (extra_items or []):
+        unit.entries.append(("item", ItemSpec(path_, {}, 0)))
     ctx = Ctx(repo)
     ctx.pathmap = [([t.text for t in lex(l)], r) for l, r in unit.pathmap]
     gen = Generated()
